@@ -2,6 +2,7 @@ package vh
 
 import (
 	"bufio"
+	"context"
 	"encoding/json"
 	"flag"
 	"fmt"
@@ -28,6 +29,7 @@ type DispScenario struct {
 		Rdec  string            `json:"rdec"`
 		Wret  string            `json:"wret"`
 		Mtype string            `json:"mtype"`
+		Pre   string            `json:"pre"`
 	} `json:"cfg"`
 	Hooks   [][]string `json:"hooks"`
 	Chooks  [][]string `json:"chooks"`
@@ -85,11 +87,22 @@ func flat(h [][]string) []string {
 	return o
 }
 
+// what earlier scenarios' callers were handed (the call command with its status) is kept for a while and looked
+// at again after later messages have been received in the process: it must not change
+type dispHeldCall struct {
+	cmd   erpc.CallCmd
+	code  int32
+	msg   string
+	cause string
+}
+
+var dispHeld []dispHeldCall
+
 func runDisp(rec *Rec, sc *DispScenario, n int) {
 	c := sc.Cfg
 	rec.SetTrace(sc.ID, map[string]interface{}{
 		"mode": "disp", "kind": c.Kind, "route": c.Route, "hout": c.Hout, "dec": c.Dec, "rdec": c.Rdec,
-		"vetopl": c.Veto[0], "vetostage": c.Veto[1], "vkind": c.Vkind, "wret": c.Wret, "mtype": c.Mtype,
+		"vetopl": c.Veto[0], "vetostage": c.Veto[1], "vkind": c.Vkind, "wret": c.Wret, "mtype": c.Mtype, "pre": c.Pre,
 		"exphooks": flat(sc.Hooks), "expchooks": flat(sc.Chooks),
 		"expinvoked": sc.Invoked, "expreplies": sc.Replies, "expcstat": sc.Cstat, "expdisc": sc.Disc, "expwritten": sc.Written,
 	})
@@ -182,6 +195,17 @@ func runDisp(rec *Rec, sc *DispScenario, n int) {
 	if c.Wret == "late" {
 		a.SetWriteReturnDelay(25 * time.Millisecond)
 	}
+	tapOut0, tapIn0 := 0, 0
+	if c.Pre == "deadlinewrite" {
+		// the serving session writes a message of its own under a context deadline; the deadline then passes
+		pctx, cancel := context.WithTimeout(context.Background(), 4*time.Millisecond)
+		ss.Push("/not/served/by/the/client", &Arg{Tag: "pre"}, erpc.WithContext(pctx))
+		time.Sleep(8 * time.Millisecond)
+		cancel()
+		// the frames of this preparation are not part of the observed exchange
+		o0, i0 := a.Tapped()
+		tapOut0, tapIn0 = len(o0), len(i0)
+	}
 	if c.Kind == "badtype" {
 		// a well-formed frame with a type byte the session does not serve, written straight onto the connection
 		mt := map[string]byte{"t0": 0, "t4": erpc.TypeAuthCall, "t5": erpc.TypeAuthReply, "t9": 9, "t255": 255}[c.Mtype]
@@ -213,6 +237,7 @@ func runDisp(rec *Rec, sc *DispScenario, n int) {
 				resok = r.Tag == F(tag)
 			}
 			rec.Emit("CallDone", "code", st.Code(), "msg", st.Msg(), "cause", cause, "resok", resok)
+			dispHeld = append(dispHeld, dispHeldCall{cmd: cmd, code: st.Code(), msg: st.Msg(), cause: cause})
 		case <-time.After(3 * time.Second):
 			rec.Emit("CallHang")
 		}
@@ -239,6 +264,9 @@ func runDisp(rec *Rec, sc *DispScenario, n int) {
 		}
 	}
 	out, inb := a.Tapped()
+	if tapOut0 <= len(out) && tapIn0 <= len(inb) {
+		out, inb = out[tapOut0:], inb[tapIn0:]
+	}
 	fo, _ := ParseRawFrames(out)
 	fi, _ := ParseRawFrames(inb)
 	ncall, npush, nreply, nother := 0, 0, 0, 0
@@ -273,6 +301,28 @@ func runDisp(rec *Rec, sc *DispScenario, n int) {
 	case <-cd:
 	case <-time.After(2 * time.Second):
 	}
+	// statuses handed out by the previous scenarios (this scenario's own traffic has been received since)
+	changed := 0
+	first := ""
+	if len(dispHeld) > 0 {
+		for _, h := range dispHeld[:len(dispHeld)-1] {
+			st := h.cmd.Status()
+			cz := ""
+			if e := st.Cause(); e != nil {
+				cz = e.Error()
+			}
+			if st.Code() != h.code || st.Msg() != h.msg || cz != h.cause {
+				changed++
+				if first == "" {
+					first = fmt.Sprintf("%d/%q/%q -> %d/%q/%q", h.code, h.msg, h.cause, st.Code(), st.Msg(), cz)
+				}
+			}
+		}
+		if len(dispHeld) > 4 {
+			dispHeld = dispHeld[len(dispHeld)-4:]
+		}
+	}
+	rec.Emit("HeldStatus", "changed", changed, "first", first)
 	rec.Emit("Quiesce", "ncall", ncall, "npush", npush, "nreply", nreply, "nother", nother, "srvdisc", sdisc,
 		"enters", atomic.LoadInt64(&app.Enters)-before)
 }
